@@ -567,6 +567,10 @@ func runC12(r *Run) {
 		{Name: "ten-ttl-uptime1h", Entries: 10, TTL: true, UptimeS: 3600},
 		{Name: "version-mismatch-empty", Entries: 0, SavedVer: 1, LoadVer: 2},
 		{Name: "version-mismatch-ttl-uptime1h", Entries: 10, TTL: true, UptimeS: 3600, SavedVer: 7, LoadVer: 8},
+		// the other direction (a stream newer than its reader: an application rolled back) and the extremes
+		{Name: "version-mismatch-newer-stream", Entries: 10, SavedVer: 9, LoadVer: 3},
+		{Name: "version-mismatch-newer-stream-vs-zero", Entries: 1, TTL: true, SavedVer: 1, LoadVer: 0},
+		{Name: "version-mismatch-max-vs-zero", Entries: 1, SavedVer: ^uint64(0), LoadVer: 0},
 	}
 	exhaustive := true
 	for _, sh := range small {
